@@ -7,6 +7,8 @@ All statements hold for all real G_dB, NF_dB, h, f0, fs, every draw, all lengths
 with or without incoming noise (hypotheses are only those the statement itself makes).
 -/
 import OptiVerif.Lemmas.Edfa
+import OptiVerif.Lemmas.ModulatorsFilter
+import OptiVerif.Props.C11
 
 set_option linter.unusedVariables false
 set_option linter.unnecessarySeqFocus false
@@ -180,6 +182,82 @@ theorem edfa_osnr_le (NFdB GdB h f0 fs Ps Pn : ℝ) (hG : 0 ≤ GdB) (hh : 0 ≤
   nlinarith [mul_pos hPs' hA']
 
 example : (2:ℝ) * 3 / (2 * 1 + 1) ≤ 3 / 1 := osnr_le 2 3 1 1 (by norm_num) (by norm_num) (by norm_num) (by norm_num)
+
+/-! ### optional BW: the optical filter of C11 applied to the amplifier's whole output -/
+
+/-- with `BW` the result is, by definition, `BPF` (model `Filter.bpf` with the spied sections) of what `EDFA` returns without `BW` -/
+theorem edfa_bw_is_bpf_after_edfa (GdB NFdB h f0 fs : ℝ) (d0 d1 d2 d3 : List ℝ) (secs : List (Filter.Sec ℝ)) (e : ℕ)
+    (inp : Input (Cx ℝ)) :
+    edfaBW GdB NFdB h f0 fs d0 d1 d2 d3 secs e inp =
+      match edfa GdB NFdB h f0 fs d0 d1 d2 d3 inp with
+      | .error err => .error err
+      | .ok o => Filter.bpf secs e ⟨[o.x, o.y], some [o.nx, o.ny]⟩ := by
+  unfold edfaBW
+  cases edfa GdB NFdB h f0 fs d0 d1 d2 d3 inp <;> rfl
+
+/-- **the whole output is band-limited, signal and noise rows alike** (C11 `filt_rows_bpf`): each of the four rows is
+    `F = filtCoreCx secs e` of the corresponding unfiltered row, lengths preserved; a non-optical input still raises `TypeError` -/
+theorem edfa_bw_rows (GdB NFdB h f0 fs : ℝ) (d0 d1 d2 d3 : List ℝ) (secs : List (Filter.Sec ℝ)) (e : ℕ)
+    (x : Modulators.Field (Cx ℝ)) (out : Out (Cx ℝ)) (hx : x.WF) (he : e < x.sig.len)
+    (ho : edfa GdB NFdB h f0 fs d0 d1 d2 d3 (.optical x) = .ok out) :
+    edfaBW GdB NFdB h f0 fs d0 d1 d2 d3 secs e (.optical x) =
+        .ok ⟨[Filter.filtCoreCx secs e out.x, Filter.filtCoreCx secs e out.y],
+             some [Filter.filtCoreCx secs e out.nx, Filter.filtCoreCx secs e out.ny]⟩ ∧
+      (Filter.filtCoreCx secs e out.x).length = x.sig.len ∧ (Filter.filtCoreCx secs e out.y).length = x.sig.len ∧
+      (Filter.filtCoreCx secs e out.nx).length = x.sig.len ∧ (Filter.filtCoreCx secs e out.ny).length = x.sig.len ∧
+      edfaBW GdB NFdB h f0 fs d0 d1 d2 d3 secs e (Input.other : Input (Cx ℝ)) = .error .TypeError := by
+  obtain ⟨lx, ly, lnx, lny⟩ := edfa_two_pol GdB NFdB h f0 fs d0 d1 d2 d3 x out hx ho
+  refine ⟨?_, ?_, ?_, ?_, ?_, rfl⟩
+  · rw [edfa_bw_is_bpf_after_edfa, ho]
+    simp only
+    rw [Props.C11.filt_rows_bpf secs e ⟨[out.x, out.y], some [out.nx, out.ny]⟩]
+    · rfl
+    · intro r hr
+      simp only [List.mem_cons, List.not_mem_nil, or_false] at hr
+      rcases hr with rfl | rfl <;> omega
+    · intro nz hnz r hr
+      cases hnz
+      simp only [List.mem_cons, List.not_mem_nil, or_false] at hr
+      rcases hr with rfl | rfl <;> omega
+  · rw [Filter.length_filtCoreCx _ _ _ (by omega), lx]
+  · rw [Filter.length_filtCoreCx _ _ _ (by omega), ly]
+  · rw [Filter.length_filtCoreCx _ _ _ (by omega), lnx]
+  · rw [Filter.length_filtCoreCx _ _ _ (by omega), lny]
+
+/-- … hence **`out.noise = bpf(√G·in.noise + ase)` row by row**, and by linearity of the filter (C11 `filt_linear_cx`) this is
+    `bpf(√G·in.noise) + bpf(ase)`: the incoming noise and the ASE are band-limited by the same filter as the signal.
+    (Two-polarisation noisy input; `F = filtCoreCx secs e`.) -/
+theorem edfa_bw_noise (GdB NFdB h f0 fs : ℝ) (d0 d1 d2 d3 : List ℝ) (secs : List (Filter.Sec ℝ)) (e : ℕ)
+    (sx sy a b : List (Cx ℝ)) (hx : (⟨.two sx sy, some (.two a b)⟩ : Modulators.Field (Cx ℝ)).WF) (he : e < sx.length) :
+    let s := aseScale (pAse NFdB GdB h f0 fs)
+    let g := gainAmp GdB
+    let F := Filter.filtCoreCx secs e
+    ∀ o, edfaBW GdB NFdB h f0 fs d0 d1 d2 d3 secs e (.optical ⟨.two sx sy, some (.two a b)⟩) = .ok o →
+      o.rows = [F (sx.map (Cx.smul g)), F (sy.map (Cx.smul g))] ∧
+      o.noise = some [F (List.zipWith (· + ·) (a.map (Cx.smul g)) (aseRow s d0 d2)),
+                      F (List.zipWith (· + ·) (b.map (Cx.smul g)) (aseRow s d1 d3))] ∧
+      o.noise = some [List.zipWith (· + ·) (F (a.map (Cx.smul g))) (F (aseRow s d0 d2)),
+                      List.zipWith (· + ·) (F (b.map (Cx.smul g))) (F (aseRow s d1 d3))] := by
+  intro s g F o hbw
+  rw [edfa_bw_is_bpf_after_edfa] at hbw
+  cases ho : edfa GdB NFdB h f0 fs d0 d1 d2 d3 (.optical ⟨.two sx sy, some (.two a b)⟩) with
+  | error err => rw [ho] at hbw; cases hbw
+  | ok out =>
+    have hrows := (edfa_bw_rows GdB NFdB h f0 fs d0 d1 d2 d3 secs e _ out hx he ho).1
+    rw [edfa_bw_is_bpf_after_edfa, ho] at hrows
+    rw [ho] at hbw
+    simp only at hbw hrows
+    rw [hrows] at hbw
+    cases hbw
+    obtain ⟨⟨l0, l1, l2, l3⟩, _, _, _, _⟩ := edfa_ok_inv ho
+    obtain ⟨ex, _, ey⟩ := edfa_signal GdB NFdB h f0 fs d0 d1 d2 d3 _ out ho
+    obtain ⟨_, _, en⟩ := edfa_noise GdB NFdB h f0 fs d0 d1 d2 d3 _ out hx ho
+    obtain ⟨enx, eny⟩ := en a b rfl
+    have hs := hx.noise_shaped rfl
+    simp only [Rows.Shaped, Rows.len] at hs l0 l1 l2 l3
+    refine ⟨by rw [ex, ey sx sy rfl]; rfl, by rw [enx, eny], ?_⟩
+    rw [enx, eny, filtCoreCx_add secs e _ _ (by simp [aseRow, hs.1, l0, l2]),
+      filtCoreCx_add secs e _ _ (by simp [aseRow, hs.2, l1, l3])]
 
 /-! ### input validation -/
 
